@@ -3,49 +3,77 @@
    correspondence check runs against exporter.py) in theories/Export.v.
    The TensorBoard statements quantify over an arbitrary event type A and device-entry type D observed through
    the value found under 'pid' / 'id', over all event lists, device lists and save_to_file values. *)
-From Coq Require Import ZArith QArith List Bool String Permutation Lia.
+From Coq Require Import ZArith QArith List Bool String Permutation Sorted Lia.
 Import ListNotations.
 From AiuModel Require Import Base Export Export_proofs.
 Local Open Scope Z_scope.
 
-(* (1) the property on its domain: R ranks (2 <= R <= 1000), every pid in {0..R-1} u {1000..1000+R-1} u {-1}, every
-   rank present, with or without pid -1 events.  Then the rank count is R, R worker files are written, worker r
-   holds exactly the events whose pid is r or 1000+r in export order, the workers together contain every event
-   with pid <> -1 exactly once (multiset equality), and the combined view holds every exported event. *)
+(* (1) the property, for ANY set of present rank ids (no hypothesis on the pids; after fix 0f462ed the rank ids need not
+   be 0..R-1).  The rank ids kept by the exporter are strictly ascending and are exactly the non-negative folded ids
+   that are present — for r < 1000: some exported event has pid r or 1000+r — so there is no worker for an absent rank;
+   rank_cnt is their number and there is one worker view per rank id; the worker files are written unless there is
+   exactly one rank (single-rank special case: combined file only); the view of rank r (< 1000) holds exactly the
+   events whose pid is r or 1000+r and the device entries whose id is r or 1000+r, in export order; an id that is not
+   a present rank has no view; the workers together contain every event with an int pid >= 0 exactly once (multiset
+   equality) and nothing else; the combined view holds every exported event. *)
 Theorem C18_tb_partition :
-  forall (A D : Type) (pid : A -> keyv) (did : D -> keyv) (R : nat) (events : list A) (devices : list D)
+  forall (A D : Type) (pid : A -> keyv) (did : D -> keyv) (events : list A) (devices : list D)
          (save : bool) (res : tb_result A D),
-    (2 <= R <= 1000)%nat -> tb_domain pid R events ->
     tb_flush pid did events devices save = Some res ->
-    tb_rank_cnt res = R /\ List.length (workers res) = R /\ tb_workers_written res = true /\
-    (forall r, (r < R)%nat -> nth_error (workers res) r = Some (filter (pid_in pid (Z.of_nat r)) events)) /\
-    Permutation (List.concat (workers res)) (filter (not_m1 pid) events) /\
+    StronglySorted Z.lt (tb_rank_ids res) /\
+    (forall r, In r (tb_rank_ids res) <-> 0 <= r /\ present pid events r) /\
+    (forall r, 0 <= r < 1000 -> (In r (tb_rank_ids res) <-> exists e, In e events /\ pid_in pid r e = true)) /\
+    tb_rank_cnt res = List.length (tb_rank_ids res) /\ List.length (workers res) = List.length (tb_rank_ids res) /\
+    tb_workers_written res = negb (Nat.eqb (List.length (tb_rank_ids res)) 1) /\
+    (forall r, In r (tb_rank_ids res) -> r < 1000 ->
+       view_of_rank res r = Some (filter (pid_in pid r) events, filter (pid_in did r) devices)) /\
+    (forall r, ~ In r (tb_rank_ids res) -> view_of_rank res r = None) /\
+    Permutation (List.concat (workers res)) (filter (pid_nonneg pid) events) /\
     fst (tb_combined res) = events.
 Proof. exact @tb_partition. Qed.
 Print Assumptions C18_tb_partition.
 
-(* (2) no hypothesis on the pids: there are rank-count many views and view r < 1000 is exactly the events with pid r or
-   1000+r and the device entries with id r or 1000+r, in export order *)
+(* (1') the special case of the dense numbering: R ranks (2 <= R <= 1000), every pid in {0..R-1} u {1000..1000+R-1} u
+   {-1}, every rank present, with or without pid -1 events.  Then the rank ids are 0..R-1, worker index = rank, R worker
+   files are written, and the workers together contain every event with pid <> -1 exactly once. *)
+Theorem C18_tb_partition_dense :
+  forall (A D : Type) (pid : A -> keyv) (did : D -> keyv) (R : nat) (events : list A) (devices : list D)
+         (save : bool) (res : tb_result A D),
+    (2 <= R <= 1000)%nat -> tb_domain pid R events ->
+    tb_flush pid did events devices save = Some res ->
+    tb_rank_ids res = map Z.of_nat (seq 0 R) /\ tb_rank_cnt res = R /\ List.length (workers res) = R /\
+    tb_workers_written res = true /\
+    (forall r, (r < R)%nat -> nth_error (workers res) r = Some (filter (pid_in pid (Z.of_nat r)) events)) /\
+    Permutation (List.concat (workers res)) (filter (not_m1 pid) events) /\
+    fst (tb_combined res) = events.
+Proof. exact @tb_partition_dense. Qed.
+Print Assumptions C18_tb_partition_dense.
+
+(* (2) no hypothesis on the pids, any rank id (also >= 1000): the i-th view belongs to the i-th rank id r and is exactly
+   the events / device entries filed under r (folded id = r; for r < 1000: pid r or 1000+r), in export order; an id
+   that is no rank id has no view *)
 Theorem C18_tb_worker_content :
   forall (A D : Type) (pid : A -> keyv) (did : D -> keyv) (events : list A) (devices : list D) (save : bool)
          (res : tb_result A D),
     tb_flush pid did events devices save = Some res ->
-    List.length (tb_views res) = tb_rank_cnt res /\
-    forall r, (r < tb_rank_cnt res)%nat -> (r < 1000)%nat ->
-      nth_error (tb_views res) r =
-        Some (filter (pid_in pid (Z.of_nat r)) events, filter (pid_in did (Z.of_nat r)) devices).
+    (forall i r, nth_error (tb_rank_ids res) i = Some r ->
+       nth_error (tb_views res) i = Some (filter (key_is pid r) events, filter (key_is did r) devices)) /\
+    (forall r, In r (tb_rank_ids res) ->
+       view_of_rank res r = Some (filter (key_is pid r) events, filter (key_is did r) devices) /\
+       (r < 1000 -> view_of_rank res r = Some (filter (pid_in pid r) events, filter (pid_in did r) devices))) /\
+    (forall r, ~ In r (tb_rank_ids res) -> view_of_rank res r = None).
 Proof. exact @tb_worker_content. Qed.
 Print Assumptions C18_tb_worker_content.
 
-(* (3) no hypothesis on the pids: the workers together are, as a multiset, the events filed under a rank id in
-   [0, rank count); an event reaches a worker iff its (folded) rank id is below the rank count — this is what is lost
-   when the rank numbering has gaps or a pid is not an int (outside the property's domain, see the Example) *)
+(* (3) no hypothesis on the pids: the workers together are, as a multiset, the events with an int pid >= 0; an event
+   reaches a worker iff its pid is an int >= 0 (pid -1, other negative pids and non-int pids reach none — see the
+   Example) *)
 Theorem C18_tb_workers_perm :
   forall (A D : Type) (pid : A -> keyv) (did : D -> keyv) (events : list A) (devices : list D) (save : bool)
          (res : tb_result A D),
     tb_flush pid did events devices save = Some res ->
-    Permutation (List.concat (workers res)) (filter (in_range pid (tb_rank_cnt res)) events) /\
-    forall e, In e (List.concat (workers res)) <-> In e events /\ in_range pid (tb_rank_cnt res) e = true.
+    Permutation (List.concat (workers res)) (filter (pid_nonneg pid) events) /\
+    forall e, In e (List.concat (workers res)) <-> In e events /\ pid_nonneg pid e = true.
 Proof.
   intros A D pid did events devices save res H. split.
   - exact (tb_workers_perm pid did events devices save res H).
@@ -69,13 +97,13 @@ Qed.
 Print Assumptions C18_tb_combined_all.
 
 (* (5) "whether the last rank is written must not depend on an unrelated pseudo process": removing the pid -1 events
-   changes neither the rank count nor any worker view *)
+   changes neither the rank ids nor the rank count nor any worker view *)
 Theorem C18_tb_m1_irrelevant :
   forall (A D : Type) (pid : A -> keyv) (did : D -> keyv) (events : list A) (devices : list D) (save : bool)
          (res res' : tb_result A D),
     tb_flush pid did events devices save = Some res ->
     tb_flush pid did (filter (not_m1 pid) events) devices save = Some res' ->
-    tb_rank_cnt res' = tb_rank_cnt res /\ tb_views res' = tb_views res.
+    tb_rank_ids res' = tb_rank_ids res /\ tb_rank_cnt res' = tb_rank_cnt res /\ tb_views res' = tb_views res.
 Proof. exact @tb_m1_irrelevant. Qed.
 Print Assumptions C18_tb_m1_irrelevant.
 
@@ -95,7 +123,7 @@ Theorem C18_df_rows :
 Proof. intros evs H. split; [now apply df_rows_match|now apply df_row_count]. Qed.
 Print Assumptions C18_df_rows.
 
-(* (8) regression: with the rank-count rule before fix 6bb49ce (groups - 1) statement (1) is false — a two-rank
+(* (8) regression: with the rank-count rule before fix 6bb49ce (groups - 1) statement (1') is false — a two-rank
    trace without pid -1 events loses its last rank *)
 Theorem C18_old_rule_refuted :
   exists (events : list tbev) (res : tb_result tbev tbev),
@@ -105,11 +133,21 @@ Theorem C18_old_rule_refuted :
 Proof. exact old_rule_refuted. Qed.
 Print Assumptions C18_old_rule_refuted.
 
+(* (9) regression: with the worker numbering before fix 0f462ed (workers 0..rank_cnt-1 whatever the rank ids are)
+   statement (1) is false — on the ranks {2, 3} every event has a pid >= 0 and none is in a worker *)
+Theorem C18_dense_rule_refuted :
+  exists (events : list tbev) (res : tb_result tbev tbev),
+    (forall e, In e events -> pid_nonneg (@snd Z keyv) e = true) /\
+    tb_flush_dense (@snd Z keyv) (@snd Z keyv) events [] true = Some res /\
+    ~ Permutation (List.concat (workers res)) (filter (pid_nonneg (@snd Z keyv)) events).
+Proof. exact dense_rule_refuted. Qed.
+Print Assumptions C18_dense_rule_refuted.
+
 (* ------------------------------------------------------------------ non-vacuity *)
 Definition ex_events : list tbev :=
   [(1, KInt 0); (2, KInt 1000); (3, KInt 2); (4, KInt (-1)); (5, KInt 1); (6, KInt 1002); (7, KInt 0); (8, KInt (-1))].
 
-(* the hypotheses of (1) are met by a three-rank trace with pid -1 counters, and the conclusion is what one expects *)
+(* the hypotheses of (1') are met by a three-rank trace with pid -1 counters, and the conclusion is what one expects *)
 Example C18_domain_nonvacuous :
   tb_domain (@snd Z keyv) 3 ex_events /\
   exists res, tb_flush (@snd Z keyv) (@snd Z keyv) ex_events [(0, KInt 0); (1, KInt 1); (2, KInt 2)] false = Some res /\
@@ -127,12 +165,23 @@ Proof.
   - eexists. split; [vm_compute; reflexivity|]. vm_compute. repeat split.
 Qed.
 
-(* outside the domain (gap in the rank numbering, a pid that is not an int): (2) and (3) still hold and say what
-   happens — rank 2 of ranks {0, 2} and the non-int pid reach no worker, worker 1 is empty *)
-Example C18_gap_loses :
-  exists res, tb_flush (@snd Z keyv) (@snd Z keyv) [(1, KInt 0); (2, KInt 2); (3, KOther); (4, KInt 1002)] [] true = Some res /\
-    tb_rank_cnt res = 2%nat /\ map (map fst) (workers res) = [[1]; []].
-Proof. eexists. split; [vm_compute; reflexivity|]. vm_compute. split; reflexivity. Qed.
+(* (1) on rank ids that are not 0..R-1 (a subset {2, 5} of a job's ranks, with pid -1 counters, a negative pid and a pid
+   that is not an int): workers 2 and 5 and no other, each with the events of its rank; pid -1 / -7 / non-int in none *)
+Example C18_gap_nonvacuous :
+  exists res, tb_flush (@snd Z keyv) (@snd Z keyv)
+                [(1, KInt 5); (2, KInt 2); (3, KOther); (4, KInt 1002); (5, KInt (-1)); (6, KInt 1005); (7, KInt (-7))]
+                [(0, KInt 2); (1, KInt 1005); (2, KInt 0)] true = Some res /\
+    tb_rank_ids res = [2; 5] /\ tb_rank_cnt res = 2%nat /\ map (map fst) (workers res) = [[2; 4]; [1; 6]] /\
+    map (fun v => map fst (snd v)) (tb_views res) = [[0]; [1]] /\
+    view_of_rank res 0 = None /\ view_of_rank res 3 = None /\ tb_workers_written res = true.
+Proof. eexists. split; [vm_compute; reflexivity|]. vm_compute. repeat split. Qed.
+
+(* a single rank that is not rank 0: one view, no worker file (single-rank special case) *)
+Example C18_single_rank :
+  exists res, tb_flush (@snd Z keyv) (@snd Z keyv) [(1, KInt 3); (2, KInt 1003); (3, KInt (-1))] [] true = Some res /\
+    tb_rank_ids res = [3] /\ map (map fst) (workers res) = [[1; 2]] /\ tb_workers_written res = false /\
+    tb_combined_written res = true.
+Proof. eexists. split; [vm_compute; reflexivity|]. vm_compute. repeat split. Qed.
 
 (* (7) on a stream with slices, counters, metadata and B/E events *)
 Example C18_df_nonvacuous :
